@@ -3,6 +3,8 @@
   Requests: {"op": <name>, ...}; see `dispatch`.
 -/
 import AY.Driver.Codec
+import AY.Driver.OpsC17
+import AY.Driver.OpsC20
 open Lean AY AY.Codec
 
 def parseDocs (j : Json) : Except String (List (Env × Raw)) :=
@@ -87,6 +89,12 @@ def dispatch (j : Json) : Json :=
   | .ok (.str "config") => opConfig j
   | .ok (.str "upd") => opUpd j
   | .ok (.str "erase") => opErase j
+  | .ok (.str "c17") => AY.OpsC17.opC17 j
+  | .ok (.str "splitPath") => AY.OpsC17.opSplitPath j
+  | .ok (.str "joinPath") => AY.OpsC17.opJoinPath j
+  | .ok (.str "c17path") => AY.OpsC17.opC17Path j
+  | .ok (.str "c17reserved") => AY.OpsC17.opC17Reserved j
+  | .ok (.str "c20") => opC20 j
   | _ => Json.mkObj [("bad", .str "unknown op")]
 
 partial def loop (h : IO.FS.Stream) (out : IO.FS.Stream) : IO Unit := do
